@@ -6,4 +6,4 @@ import (
 	"verifsim/sim"
 )
 
-func TestWorker(t *testing.T) { sim.RunWorker(t, []*sim.Spec{SpecC11}) }
+func TestWorker(t *testing.T) { sim.RunWorker(t, []*sim.Spec{SpecC11, SpecC20}) }
